@@ -46,6 +46,7 @@ ASSUMPTIONS = [
     "numpy.linalg.svd returns factors with s sorted decreasingly and non-negative (numpy's contract, exercised by the repository tests); orthonormality is not needed for (a)",
     "the minimum-norm least-squares characterisation of the truncated SVD formula is trusted mathematics",
     "(d) first-step-lands-on-solution with real LAPACK in binary64 is outside this technique",
+    "(e) Newton system: unit knob weights, probe step 1e-3, target weights 1 or 2, non-Broyden steps; the solver keeps its own point when the knobs agree with it within 1e-12 (Optimize.step), so the system may be taken at either point; exploration of the last step stops right after the system is recorded",
 ]
 BOUNDS = {
     "quick": "(a) shapes m,n <= 3 (all 9), every cutoff, two successive calls; (b) 1 and 2 knobs; (c) 1x1, 2x1, 1x2, 2x2 linear problems, native / rescaled / scalar views; (e) Newton system = finite-difference Jacobian of the current problem at the current point: 8 call sequences on 1x1 / 1x2 / 2x1 that return to the same point with another configuration (target off for one call, enabled later, weight or requested value changed, active knob swapped)",
